@@ -34,7 +34,7 @@ Lemma update_atomic : forall fx sch st sets w ret st',
 Proof.
   intros fx sch st sets w ret st' H. cbn [step] in H. unfold do_update in H.
   destruct (where_modelled w st && sets_modelled sch sets); [|discriminate].
-  destruct (new_rows fx sch sets (select fx sch w st)); inversion H; reflexivity.
+  destruct (new_rows true sch sets (select true sch w st)); inversion H; reflexivity.
 Qed.
 Lemma delete_never_fails : forall fx sch st w ret st',
   step fx sch st (SDelete w ret) <> (RErr, st').
